@@ -8,6 +8,7 @@ import OFV.Proofs.C14Swap
 import OFV.Proofs.C14Gates
 import OFV.Proofs.C14Ffft
 import OFV.Proofs.C14Givens
+import OFV.Proofs.C14FfftAction
 
 namespace OFV.C14
 open OFV.Model.C14 OFV.Spec.C14
@@ -131,6 +132,38 @@ theorem ffft_table_is_dft (n k j : Nat) (hn : 1 ≤ n) (hj : j < n) :
 
 example : ctExp [2, 3] 4 5 = 8 ∧ 8 % 6 = (4 * 5) % 6 := by decide
 example : primeFactors 12 12 = [2, 2, 3] := by decide
+
+/-- `ffft_pow2_is_dft` — the GATE ACTION for registers of `2^M` modes: over any commutative ring with an element
+`w` with `w^(2^(M-1)) = −1` (a primitive `2^M`-th root of unity; `ω = e^{-2πi/2^M}` in ℂ), letting the operations
+emitted by the Model's `ffftOps (2^M)` — FSWAP permutation networks, `F0`, `_TwiddleGate`s, in circuit order — act
+on the coefficient vector of `a†_k` produces the coefficients `w^(k·j)` on `a†_j`: the emitted op list implements
+the discrete Fourier transform on the one-particle sector (times `2^{-M/2}`: one factor `2^{-1/2}` per `F0` layer,
+kept out of the Model).  The single-gate actions assumed in `applyFfftOp` (`F0`: `(a,b) ↦ (a+b, a−b)`, twiddle:
+multiplication by `ω_n^k`, permutation: relabelling) are the C14 gate facts checked against cirq by the harness. -/
+theorem ffft_pow2_is_dft {R : Type} [CommRing R] (w : R) (M : Nat) (hneg : 1 ≤ M → w ^ (2 ^ (M - 1)) = -1)
+    (k j : Nat) (hk : k < 2 ^ M) (hj : j < 2 ^ M) :
+    runFfft (ringOps w) (2 ^ M) (ffftOps (2 ^ M)) (fun i => if i = k then 1 else 0) j = w ^ (j * k) := by
+  have hops : ffftOps (2 ^ M) = ffftRec 0 (2 ^ M) (List.replicate M 2) := by
+    unfold ffftOps
+    rcases Nat.eq_zero_or_pos M with h0 | hpos
+    · subst h0; simp [ffftRec]
+    · have : ¬ (2 ^ M ≤ 1) := by
+        have : 2 ^ 1 ≤ 2 ^ M := Nat.pow_le_pow_right (by norm_num) hpos
+        omega
+      rw [if_neg this, primeFactors_pow2 M (2 ^ M) (Nat.le_refl _)]
+  obtain ⟨_, hd⟩ := ffftRec_pow2_isDFT w M hneg M (Nat.le_refl M) 0 (fun i => if i = k then (1 : R) else 0)
+  have := hd j hj
+  rw [Nat.zero_add] at this
+  rw [hops, this, Nat.sub_self, pow_zero, pow_one]
+  rw [Finset.sum_eq_single k]
+  · simp
+  · intro b _ hb; simp [hb]
+  · intro hk'; exact absurd (Finset.mem_range.mpr hk) hk'
+
+/-- non-vacuity: `w = −1` for two modes (ℤ), `w = −i` for four modes (Gaussian rationals) -/
+example : (1 : Nat) ≤ 1 → (-1 : Int) ^ (2 ^ (1 - 1)) = -1 := by intro _; norm_num
+example : (1 : Nat) ≤ 2 → (⟨0, -1⟩ : GQ) ^ (2 ^ (2 - 1)) = -1 := by
+  intro _; rw [show (2 : Nat) ^ (2 - 1) = 2 from rfl, pow_two]; apply GQ.ext <;> simp
 
 /-! ## gate algebra (all rational points `(c, s)` of the unit circle; `cr2 p`, `an2 p` are the
 Jordan–Wigner matrices of `a†_p`, `a_p` on two modes computed from the Spec action `actF`) -/
